@@ -295,6 +295,29 @@ def run(ctx):
                     if "\n" in c.args[0].value or "\n" in c.args[1].value or "\\n" in c.args[0].value:
                         out.add((c.args[0].value, c.args[1].value))
         return out
+    # escaping is a property of one sheet (the structure sheet): every method that escapes or unescapes must be one
+    # that writes / reads that sheet, otherwise one side transforms text the other side never transformed
+    def escape_methods(cls):
+        out = []
+        for m in cls.all_methods:
+            for c in walk_no_nested(m.node):
+                if isinstance(c, ast.Call) and isinstance(c.func, ast.Attribute) and c.func.attr == "replace" and \
+                        len(c.args) == 2 and all(isinstance(a, ast.Constant) and isinstance(a.value, str) for a in c.args) and \
+                        ("\n" in c.args[0].value or "\n" in c.args[1].value or "\\n" in c.args[0].value):
+                    out.append((m, c))
+        return out
+    esc_sheets = set()
+    for m, c in escape_methods(s2d):
+        for x in ast.walk(m.node):
+            if isinstance(x, ast.Attribute) and x.attr.endswith("_KEY") and isinstance(x.value, ast.Name) and x.value.id == "constants":
+                esc_sheets.add(x.attr)
+    for m, c in escape_methods(d2s):
+        sheets = {x.attr for x in ast.walk(m.node) if isinstance(x, ast.Attribute) and x.attr.endswith("_KEY")
+                  and isinstance(x.value, ast.Name) and x.value.id == "constants"}
+        ctx.check(bool(sheets & esc_sheets), "R5.4", m.qualname, c, loc(m, c),
+                  "the TSV reader undoes line-break escaping in %s, which does not read the sheet(s) %s where the writer escapes: "
+                  "text that was never escaped (e.g. a description containing a backslash followed by n) is altered on reload" % (
+                      m.short, sorted(esc_sheets)), desc="%s unescapes only what the writer escapes" % m.short)
     wp, rp = replace_pairs(s2d), replace_pairs(d2s)
     ctx.check(bool(wp) and {(b, a) for (a, b) in wp} == rp, "R5.4", s2d.qualname, "escape pairs %s" % sorted(wp), loc(s2d.module, s2d.node),
               "the TSV writer escapes line breaks as %s but the reader undoes %s: prologue/epilogue text changes on reload" % (
